@@ -1,6 +1,6 @@
 SPECIFICATION CaseSpec
 CONSTANTS
   MaxActs = 0
-  Emit = FALSE
+  Emit = "none"
 INVARIANT Verdict
 CHECK_DEADLOCK FALSE
